@@ -480,8 +480,9 @@ def run_scaling(shard, ctx, sm, rng):
         else:
             # responses built to be expensive for hashing: entries that are all different but whose natural keys (the integer value
             # of an identifier; the tuple of a descriptor's fields) have one and the same hash value
-            for label, mk in ADVERSARIAL.get(name, ()):
-                small_b, big_b = (mk(8192), mk(32768)) if name in ("readelementstatus", "reporttargetportgroups") else (mk(2048), mk(8192))
+            for label, mk, (n_small, n_big) in [(lb, fn, sz) for lb, fn in ADVERSARIAL.get(name, ())
+                                                for sz in (((8192, 32768), (32768, 131072)) if name in ("readelementstatus", "reporttargetportgroups") else ((2048, 8192),))]:
+                small_b, big_b = mk(n_small), mk(n_big)
                 over, ratios = 0, []
                 for _round in range(3):
                     t1, t2 = min(cpu(small_b, {}), cpu(small_b, {})), cpu(big_b, {})
